@@ -1,8 +1,10 @@
 #!/bin/bash
 # Offline build of the whole Coq development (full .vo build, never -vos).
 set -e
+# -k: a file that fails to build must not prevent the other properties' files from being built;
+# every check re-builds (and re-checks) its own theorem file and reports a broken proof itself.
 HERE="$(cd "$(dirname "$0")" && pwd)"
 cd "$HERE/coq"
 (echo "-Q theories LV"; find theories -name '*.v' | sort) > _CoqProject
 coq_makefile -f _CoqProject -o Makefile > /dev/null
-timeout 3000 make -j16
+timeout 3000 make -k -j16 || echo 'setup: some Coq files failed to build (the affected checks will report it)'
